@@ -441,4 +441,25 @@ theorem normObjTree_basis (b : ModeBasis) (g : Grid) (hg : b.grid = some g) (t :
     normGridTree_toDict]
 
 
+/-! ### file-name suffixes -/
+
+theorem not_endsWith_append (stem ext suf : List Char)
+    (h : endsWith ext suf = false) (h' : endsWith suf ext = false) :
+    endsWith (stem ++ ext) suf = false := by
+  unfold endsWith at *
+  cases hs : suf.isSuffixOf (stem ++ ext) with
+  | false => rfl
+  | true =>
+    have h1 : suf <:+ stem ++ ext := List.isSuffixOf_iff_suffix.mp hs
+    have h2 : ext <:+ stem ++ ext := List.suffix_append stem ext
+    rcases List.suffix_or_suffix_of_suffix h1 h2 with h3 | h3
+    · rw [← List.isSuffixOf_iff_suffix] at h3; rw [h3] at h; cases h
+    · rw [← List.isSuffixOf_iff_suffix] at h3; rw [h3] at h'; cases h'
+
+theorem endsWith_append (stem ext suf : List Char) (h : endsWith ext suf = true) :
+    endsWith (stem ++ ext) suf = true := by
+  unfold endsWith at *
+  rw [List.isSuffixOf_iff_suffix] at *
+  exact h.trans (List.suffix_append stem ext)
+
 end HcipyVerif.Serial
